@@ -26,3 +26,25 @@ for line in open(log):
     n += 1
 json.dump(k, open('/verif/known_findings.json', 'w'), indent=1)
 print('recorded', n)
+# failing inputs of each recorded clause (checks that report them): merged over the tiers that were run
+import glob
+import os
+kc_path = '/verif/known_cases.json'
+kc = json.load(open(kc_path)) if os.path.exists(kc_path) else {}
+keys = {(e['match']['fid'], e['match']['clause']) for e in k['known']
+        if pid in (e['property'] if isinstance(e['property'], list) else [e['property']])}
+m = 0
+for f in glob.glob(f'/verif/replays/{pid}/fails_*.json'):
+    d = json.load(open(f))
+    if d.get('repo') != '/repo':
+        print('skipping', f, '(written by a run against', d.get('repo'), ')')
+        continue
+    for e in d['fails']:
+        if (e['fid'], e['clause']) in keys:
+            key = f"{pid}|{e['fid']}|{e['clause']}"
+            cur = set(kc.get(key, []))
+            new = {json.dumps(c, sort_keys=True) for c in e['also']}
+            m += len(new - cur)
+            kc[key] = sorted(cur | new)
+json.dump(kc, open(kc_path, 'w'), indent=0, sort_keys=True)
+print('recorded failing inputs', m)
